@@ -338,6 +338,7 @@ func registerVerifrt() {
 	ext(p+"TickLimit", func(fr *frame, a []value) value { S.tickLimit = int(asInt64(a[0])); return nil })
 	ext(p+"SchedDeterministic", func(fr *frame, a []value) value { S.deterministic = a[0].(bool); return nil })
 	ext(p+"AtomicSwitch", func(fr *frame, a []value) value { S.atomicSwitch = a[0].(bool); return nil })
+	ext(p+"RaceDetect", func(fr *frame, a []value) value { raceEnable(a[0].(bool)); return nil })
 	ext(p+"TimersNondet", func(fr *frame, a []value) value { S.timersNondet = a[0].(bool); return nil })
 	ext(p+"Concretize", func(fr *frame, a []value) value { return concretizeInt(a[0], "Concretize") })
 	ext(p+"IsSymbolicRun", func(fr *frame, a []value) value { return true })
@@ -398,6 +399,7 @@ func registerSync() {
 	ext("(*sync.RWMutex).RUnlock", func(fr *frame, a []value) value { mutexRUnlock(a[0].(*value)); return nil })
 	ext("(*sync.WaitGroup).Add", func(fr *frame, a []value) value {
 		w := wgOf(a[0].(*value))
+		raceRelease(w)
 		w.n += asInt64(a[1])
 		if w.n < 0 {
 			panic(targetRuntimeError{"sync: negative WaitGroup counter"})
@@ -406,6 +408,7 @@ func registerSync() {
 	})
 	ext("(*sync.WaitGroup).Done", func(fr *frame, a []value) value {
 		w := wgOf(a[0].(*value))
+		raceRelease(w)
 		w.n--
 		if w.n < 0 {
 			panic(targetRuntimeError{"sync: negative WaitGroup counter"})
@@ -416,19 +419,23 @@ func registerSync() {
 		w := wgOf(a[0].(*value))
 		S.switchPoint("wgwait")
 		S.waitUntil(func() bool { return w.n == 0 }, "WaitGroup.Wait")
+		raceAcquire(w)
 		return nil
 	})
 	ext("(*sync.Once).Do", func(fr *frame, a []value) value {
 		p := a[0].(*value)
 		if _, done := syncStates[p]; done {
+			raceAcquire(p)
 			return nil
 		}
 		syncStates[p] = true
 		call(fr.i, fr, 0, a[1], nil)
+		raceRelease(p)
 		return nil
 	})
 	// sync.Map as an ordered map guarded by nothing (the baton serialises)
 	smap := func(p *value) *omap {
+		raceAcqRel(p)
 		if st, ok := syncStates[p]; ok {
 			return st.(*omap)
 		}
@@ -473,16 +480,27 @@ func atomicField(p value) *value {
 }
 
 func registerAtomic() {
+	// with verifrt.AtomicSwitch(true) every atomic operation is a scheduling point;
+	// with verifrt.RaceDetect(true) it is an acquire+release on its cell and an
+	// atomic access for the mixed atomic/plain check
+	wrap := func(name string, write bool, cellOf func(value) *value, f externalFn) {
+		ext(name, func(fr *frame, a []value) value {
+			if S.atomicSwitch {
+				S.switchPoint("atomic")
+			}
+			if R != nil {
+				c := cellOf(a[0])
+				raceAcquire(c)
+				raceAccessCell(c, write, true, raceWhere(fr), "a variable accessed with sync/atomic")
+				raceRelease(c)
+			}
+			return f(fr, a)
+		})
+	}
 	for _, tn := range []string{"Int32", "Int64", "Uint32", "Uint64", "Uintptr", "Pointer"} {
 		tn := tn
-		// with verifrt.AtomicSwitch(true) every atomic operation is a scheduling point
 		ext := func(name string, f externalFn) {
-			ext(name, func(fr *frame, a []value) value {
-				if S.atomicSwitch {
-					S.switchPoint("atomic")
-				}
-				return f(fr, a)
-			})
+			wrap(name, !strings.HasPrefix(name, "sync/atomic.Load"), derefCell, f)
 		}
 		ext("sync/atomic.Load"+tn, func(fr *frame, a []value) value { return *derefCell(a[0]) })
 		ext("sync/atomic.Store"+tn, func(fr *frame, a []value) value { *derefCell(a[0]) = a[1]; return nil })
@@ -517,6 +535,9 @@ func registerAtomic() {
 	for _, tn := range []string{"Int32", "Int64", "Uint32", "Uint64", "Uintptr", "Bool"} {
 		tn := tn
 		pre := "(*sync/atomic." + tn + ")."
+		ext := func(name string, f externalFn) {
+			wrap(name, !strings.HasSuffix(name, ".Load"), atomicField, f)
+		}
 		ext(pre+"Load", func(fr *frame, a []value) value { return *atomicField(a[0]) })
 		ext(pre+"Store", func(fr *frame, a []value) value { *atomicField(a[0]) = a[1]; return nil })
 		ext(pre+"Swap", func(fr *frame, a []value) value {
